@@ -125,6 +125,10 @@ def build_model(kind, spec):
     from taurex.data.profiles.temperature.temparray import TemperatureArray
     from taurex.data.profiles.chemistry import TaurexChemistry, ConstantGas
     from taurex.contributions import AbsorptionContribution, CIAContribution
+    # the global option that switches molecules off as absorbers (read when the chemistry is constructed): it must act the
+    # same way in both opacity modes
+    from taurex.cache import GlobalCache
+    GlobalCache()['deactive_molecules'] = list(spec['deactive']) if spec.get('deactive') else None
     planet = Planet(planet_mass=spec['mp'], planet_radius=spec['rp'])
     star = BlackbodyStar(temperature=spec['ts'], radius=spec['rs'], distance=spec.get('dist', 1.0))
     T = spec['T']
